@@ -457,6 +457,21 @@ def gen_c02(rng: random.Random, tier: str) -> dict:
 
 def gen_c03(rng: random.Random, tier: str) -> dict:
     from dst.workload import compile_inputs as CI
+    if rng.random() < (0.12 if tier == 'thorough' else 0.06):
+        # three-qudit targets, permutation-aware synthesis (level 4)
+        inp = {'kind': 'unitary', 'n': 3, 'd': 2,
+               'gen': rng.choice(['qperm', 'qperm', 'circ', 'perm'])
+               if tier == 'thorough' else 'qperm',
+               'seed': rng.randrange(10 ** 6)}
+        model = {'n': 3, 'd': 2, 'gateset': 'default',
+                 'graph': rng.choice(['all', 'line'])
+                 if tier == 'thorough' else 'all'}
+        opts = {'optimization_level': rng.choice([3, 4, 4]),
+                'max_synthesis_size': 3, 'seed': rng.randrange(10 ** 6),
+                'num_workers': rng.randint(1, 4)}
+        scn = compile_scn(rng, inp, model, opts)
+        scn['policy']['preempt_gap'] = 0
+        return scn
     if rng.random() < 0.25:
         d = 2
         n = rng.randint(1, 2)
